@@ -378,14 +378,25 @@ func tempName(pattern string) (prefix, suffix string) {
 	return pattern, ""
 }
 
+// simTempDir redirects temp files requested outside the run's own directories
+// (system temp dir, /tmp...) to the run's private temp root.
+func simTempDir(dir string) string {
+	if strings.Contains(dir, "/ksim-") {
+		return dir
+	}
+	s := simrt.Active()
+	if s == nil {
+		return dir
+	}
+	return s.TempRoot()
+}
+
 func MkdirTemp(dir, pattern string) (string, error) {
 	d := disk()
 	if d == nil {
 		return real.MkdirTemp(dir, pattern)
 	}
-	if dir == "" {
-		dir = real.TempDir()
-	}
+	dir = simTempDir(dir)
 	pre, suf := tempName(pattern)
 	for {
 		d.TempSeq++
@@ -409,9 +420,7 @@ func CreateTemp(dir, pattern string) (*File, error) {
 		}
 		return &File{f: f, path: f.Name()}, nil
 	}
-	if dir == "" {
-		dir = real.TempDir()
-	}
+	dir = simTempDir(dir)
 	pre, suf := tempName(pattern)
 	for {
 		d.TempSeq++
@@ -440,7 +449,7 @@ func Exit(code int) {
 func (f *File) Real() *real.File { return f.f }
 
 func (f *File) Name() string { return f.f.Name() }
-func (f *File) Fd() uintptr   { return f.f.Fd() }
+func (f *File) Fd() uintptr  { return f.f.Fd() }
 
 func (f *File) Close() error {
 	if f == nil {
@@ -553,8 +562,8 @@ func (f *File) Sync() error {
 }
 
 func (f *File) Chmod(mode real.FileMode) error { return f.f.Chmod(mode) }
-func (f *File) Chown(uid, gid int) error        { return f.f.Chown(uid, gid) }
-func (f *File) Chdir() error                    { return f.f.Chdir() }
+func (f *File) Chown(uid, gid int) error       { return f.f.Chown(uid, gid) }
+func (f *File) Chdir() error                   { return f.f.Chdir() }
 
 func (f *File) Readdir(n int) ([]real.FileInfo, error) {
 	fis, err := f.f.Readdir(n)
